@@ -18,7 +18,29 @@ OBLIGATIONS = [
     {"id": "C10_R1_bounded", "theorem": "Iora.C10.R1_ring_bounded", "kind": "proved",
      "statement": "a well-formed ring holds at most `capacity` items and never indexes outside the buffer"},
     {"id": "C10_R1_npot", "theorem": "Iora.C10.R1_nextPowerOfTwo", "kind": "proved",
-     "statement": "nextPowerOfTwo(v) is the least power of two >= v for every v <= 2^63"},
+     "statement": "nextPowerOfTwo(v) - the fold over the EXTRACTED shift list - is the least power of two >= v for every v <= 2^63"},
+    {"id": "C10_R1_npot_wraps", "theorem": "Iora.C10.R1_nextPowerOfTwo_wraps", "kind": "proved",
+     "statement": "for v > 2^63 the 64-bit computation wraps to 0 (as the code does): capacity 0, the ring refuses every push"},
+    {"id": "C10_R1_tie", "theorem": "Iora.C10.R1_arithmetic_is_the_sources", "kind": "proved",
+     "statement": "TIE: Ring.nextPowerOfTwo is DEFINED as a fold over the extracted shift list Gen.Orders.npotShifts, Ring.resize EVALUATES the extracted expression trees (count, toCopy, startTail, dropped, final stores); on this source they unfold (rfl) to the hand-written forms the R1 proofs use - a dropped shift or a changed window start fails to build"},
+    {"id": "C10_R2_size", "theorem": "Iora.C10.R2_size_same_side", "kind": "proved",
+     "statement": "size()/empty()/full() called concurrently by the producer or the consumer (two relaxed, possibly stale loads), every interleaving: producer's answer in [true count, C], consumer's in [0, true count]; never above C; full()==true at the consumer and empty()==true at the producer are genuine"},
+    {"id": "C10_R2_size_third", "theorem": "Iora.C10.R2_size_third_thread_wraps", "kind": "proved",
+     "statement": "OBSERVATION: a third thread's size() can see tail > head and wrap to 2^64-1 (witness schedule)"},
+    {"id": "C10_R2_peek", "theorem": "Iora.C10.R2_peek_returns_oldest", "kind": "proved",
+     "statement": "every interleaving: a completing peek returns exactly the oldest item in flight (or nothing) and consumes nothing"},
+    {"id": "C10_RT_counters", "theorem": "Iora.C10.RT_throw_keeps_counters", "kind": "proved",
+     "statement": "throwing element type: a ring call interrupted by an exception from the element assignment leaves _head/_tail/_capacity/_mask unchanged"},
+    {"id": "C10_RT_partial", "theorem": "Iora.C10.RT_strong_guarantee_partial", "kind": "proved",
+     "statement": "throwing tryPush/tryPop/peek change nothing; a throwing tryPushBatch leaves the FIFO content unchanged (copied items sit beyond _head)"},
+    {"id": "C10_RT_refuted", "theorem": "Iora.C10.RT_strong_guarantee_refuted", "kind": "proved",
+     "statement": "OBSERVATION (what the code does): the strong guarantee is FALSE for tryPopBatch and resize - a throw at the k-th move leaves k moved-from husks counted as items (tryPop returns them); resize additionally loses the k items moved into the abandoned buffer (witnesses)"},
+    {"id": "C10_RT_unarmed", "theorem": "Iora.C10.RT_unarmed_agrees", "kind": "proved",
+     "statement": "with no throw armed the throwing-element model answers like the plain ring model (same outputs and counters)"},
+    {"id": "C10_Q5_refuted", "theorem": "Iora.C10.Q5_destroy_with_callers_inside_refuted", "kind": "proved",
+     "statement": "OBSERVATION (C++ lifetime rule): 'when ~BlockingQueue() has returned every other thread is out of the object' is FALSE - the waiter close() woke still has to re-acquire _mutex (8-step witness)"},
+    {"id": "C10_Q5_partial", "theorem": "Iora.C10.Q5_destroy_partial", "kind": "proved",
+     "statement": "destruction is safe when every other thread is out: under every continuation (the destructor's close() included) no other thread ever moves again"},
     {"id": "C10_R2", "theorem": "Iora.C10.R2_spsc_fifo", "kind": "proved",
      "statement": "SPSC, every interleaving with each atomic and each slot access one step, stale counter reads allowed: received ++ in-flight = accepted, in-flight <= C, results = ghost logs"},
     {"id": "C10_R2_refusals", "theorem": "Iora.C10.R2_refusals_genuine", "kind": "proved",
@@ -50,7 +72,7 @@ OBLIGATIONS = [
     {"id": "C10_Q4_every_state", "theorem": "Iora.C10.Q4_wakeup_pending_in_every_state", "kind": "proved",
      "statement": "EVERY reachable state: a sleeper whose condition holds has a wake-up in the pipeline (pending notifier / woken waiter / closer before notify_all); credit invariant #items <= #pipeline wake-ups (resp. free slots) exported"},
     {"id": "C10_members", "theorem": "Iora.C10.members_conform", "kind": "proved",
-     "statement": "the data members of BlockingQueue are the modelled ones (translator also asserts `const std::size_t _maxSize`, never assigned, and no unknown member function)"},
+     "statement": "the data members PARSED from the class (declaration order) are the modelled ones (translator also asserts `const std::size_t _maxSize`, never assigned, and no unknown member function)"},
     {"id": "C10_Q4", "theorem": "Iora.C10.Q4_no_lost_wakeup", "kind": "proved",
      "statement": "if no thread can run, every sleeper's wait condition is false (no lost wake-up), for every schedule incl. time-outs and spurious wake-ups"},
     {"id": "C10_Q4_repaired", "theorem": "Iora.C10.Q4_repaired", "kind": "proved", "statement": "no schedule of the repaired class ends in a lost wake-up"},
@@ -63,19 +85,22 @@ OBLIGATIONS = [
     {"id": "C10_Q3_instance", "theorem": "Iora.C10.Q3_close_is_broadcast_instance", "kind": "proved",
      "statement": "the queue's close() path (predicate _closed, two notify_all) is an instance of the generic broadcast theorem: nobody sleeps on a closed queue in a dead-locked state"},
     {"id": "C10_skel_conforms", "theorem": "Iora.C10.skeleton_conforms", "kind": "proved",
-     "statement": "the lock/notify skeleton extracted from blocking_queue.hpp equals the one the monitor model mirrors (decide)"},
+     "statement": "the lock/notify skeleton extracted from blocking_queue.hpp - every event tagged with the mutexes held AND its enclosing control construct (if-cond / if-body / lambda / none), `_queue.size/empty/front` and `_maxSize` reads distinguished - equals the one the monitor model mirrors (decide)"},
+    {"id": "C10_model_trace", "theorem": "Iora.C10.model_trace_is_skeleton", "kind": "proved",
+     "statement": "TIE: the lock/wait/unlock/notify trace of every call of the monitor program BQ.prog itself (13 source methods) equals the projection of the EXTRACTED skeleton (decide) - the model the Q theorems are about is compared with the source, not only a hand-written list"},
     {"id": "C10_skel_disciplined", "theorem": "Iora.C10.skeleton_disciplined", "kind": "proved",
      "statement": "every write of a wait-predicate variable is under _mutex and followed by the matching notify; waits and deque accesses hold _mutex (decide over the extracted skeleton)"},
 ]
-LEAN_MODULES = ["IoraModel.Props.C10", "IoraModel.Lemmas.RingBuffer", "IoraModel.Lemmas.RingSpsc", "IoraModel.Lemmas.BlockingQueue",
+LEAN_MODULES = ["IoraModel.Props.C10", "IoraModel.Lemmas.RingThrow", "IoraModel.Lemmas.RingSpscObs", "IoraModel.Lemmas.BlockingQueueDestroy", "IoraModel.Model.RingThrow", "IoraModel.Model.BqSkelTrace", "IoraModel.Lemmas.RingBuffer", "IoraModel.Lemmas.RingSpsc", "IoraModel.Lemmas.BlockingQueue",
                 "IoraModel.Lemmas.BlockingQueueLogs", "IoraModel.Lemmas.MonitorBroadcast", "IoraModel.Lemmas.BlockingQueueBroadcast", "IoraModel.Model.RingBuffer", "IoraModel.Model.RingSpsc", "IoraModel.Model.Monitor",
                 "IoraModel.Model.BlockingQueue", "IoraModel.Model.BqSkel", "IoraModel.Gen.Orders", "IoraModel.Gen.BqSkel"]
 NOT_PROVED = [
     "generic discipline theorem: PROVED for the broadcast (notify_all) discipline over any monitor program (Lemmas/MonitorBroadcast.lean; the queue's close() path is an instance). NOT generic: wake-ups by notify_one - their soundness is a counting argument over a class-specific resource (items resp. free slots vs. wake-ups in the pipeline, InvK.credNE/credNF), proved for the blocking-queue model only; the link from the extracted skeleton to the model is the decide-equality `skeleton_conforms` (+ `skeleton_disciplined`), not a theorem over all programs with that skeleton",
     "strict linearizability of a PARTIAL tryPushBatch to an atomic `push min(count, room)` is false (counterexample in the docstring of R2_refusals_genuine); proved instead: conservative refinement (prefix accepted, FIFO, bounded) for every interleaving incl. stale counter reads",
     "SPSC model uses natural-number counters (64-bit overflow excluded by hypothesis; sequential R1 uses UInt64 and states the hypothesis on the history)",
-    "concurrent use of size()/empty()/full()/clear()/resize() of the rings (documented as approximate resp. requiring quiescence) is not part of the SPSC model",
-    "destruction racing with callers still inside a member function (C++ lifetime rule) is outside the model; ~BlockingQueue() is close()",
+    "concurrent clear()/resize() of the rings (documented as requiring quiescence) is not part of the SPSC model; size()/empty()/full() by the producer or the consumer ARE (R2_size_same_side: theorem over reachable states, the two loads are not steps of the schedule); a third thread's size() can wrap (R2_size_third_thread_wraps)",
+    "destruction with callers inside: refuted (Q5_destroy_with_callers_inside_refuted, C++ lifetime rule - an observation) and proved safe when everybody else is out (Q5_destroy_partial); the real destructor is only run with nobody inside (`bq destroy`)",
+    "throwing element type: for histories WITHOUT an exception 'every returned element is live' is established by lockstep + the implementation-only monitor (500 cases), not by a theorem (RT_unarmed_agrees reduces answers and counters to R1, the husks tryPop/tryPopBatch leave in released slots are outside R1's abstraction); after an exception in tryPopBatch/resize the code hands out moved-from elements (RT_strong_guarantee_refuted, recorded as an observation)",
     "per-slot FastTrack epoch maps (the two-clock collapse of DESIGN 6.4 is what is proved)",
 ]
 
@@ -144,14 +169,34 @@ def npot(n):
     return c
 
 
+BIG_REQ = [129, 255, 256, 257, 511, 513, 4097, 65535, 65536, 65537, 2 ** 17 + 1, 2 ** 20 - 1, 2 ** 20, 2 ** 20 + 1]
+BATCH_MAX = 96      # batch sizes are bounded (a ring of 2^21 slots is not filled; its counters are seeded next to a multiple of the capacity)
+
+
+def gen_npot_case(rng, idx):
+    """The real `DynamicRingBuffer::nextPowerOfTwo` (private static, called directly by the harness) on boundary values of every
+    power of two up to 2^64 - 1: independent of what can be allocated."""
+    ops = []
+    for _ in range(rng.range(4, 24)):
+        k = rng.range(0, 64)
+        n = rng.choice([2 ** k - 1, 2 ** k, 2 ** k + 1, 2 ** k + rng.range(0, 2 ** k), rng.range(0, 2 ** 64 - 1), 2 ** 63 + 1, 2 ** 64 - 1,
+                        2 ** 32 + 1, 2 ** 33 - 1, 65537, 257, 2 ** 20 - 1, 0])
+        ops.append("ring npot %d" % max(0, min(n, 2 ** 64 - 1)))
+    return {"cat": "ring-npot", "ops": ops, "cap": 0, "base": 0}
+
+
 def gen_ring_case(rng, idx, wrap64=False):
     dyn = rng.chance(1, 2)
     if dyn:
         req = rng.choice([0, 1, 2, 3, 4, 5, 7, 8, 9, 15, 16, 17, 31, 32, 33, 63, 64, rng.range(0, 64)])
+        if rng.chance(1, 8):
+            # requests whose rounding needs EVERY shift of nextPowerOfTwo below what the sandbox can allocate (>>8: 257.., >>16: 65537..;
+            # >>32 needs a capacity above 2^32 = 64 GiB of uint64_t: reached through `ring npot`, the real function without a ring)
+            req = rng.choice(BIG_REQ)
         cap = npot(req)
         ops = ["ring new d %d" % req]
     else:
-        cap = rng.choice([1, 2, 4, 8, 16, 32, 64])
+        cap = rng.choice([1, 2, 4, 8, 16, 32, 64, rng.choice([64, 128, 1024, 65536])])
         ops = ["ring new s %d" % cap]
     base = 0
     if wrap64:
@@ -182,24 +227,159 @@ def gen_ring_case(rng, idx, wrap64=False):
         elif r < 54:
             ops.append("ring peek")
         elif r < 66:
-            k = rng.choice([0, 1, 2, cur_cap - 1, cur_cap, cur_cap + 1, 2 * cur_cap, rng.range(0, cur_cap + 2)])
-            k = max(k, 0)
+            k = rng.choice([0, 1, 2, cur_cap - 1, cur_cap, cur_cap + 1, 2 * cur_cap, rng.range(0, min(cur_cap, BATCH_MAX) + 2)])
+            k = min(max(k, 0), BATCH_MAX + rng.range(0, 3))
             xs = list(range(nxt, nxt + k))
             nxt += k
             ops.append("ring pushb %s" % (",".join(map(str, xs)) if xs else "-"))
         elif r < 76:
-            ops.append("ring popb %d" % max(0, rng.choice([0, 1, 2, cur_cap - 1, cur_cap, cur_cap + 3, rng.range(0, cur_cap + 2)])))
+            ops.append("ring popb %d" % min(BATCH_MAX + 5, max(0, rng.choice([0, 1, 2, cur_cap - 1, cur_cap, cur_cap + 3, rng.range(0, min(cur_cap, BATCH_MAX) + 2)]))))
         elif r < 88:
             ops.append("ring " + rng.choice(["size", "empty", "full", "capacity"]))
         elif r < 91:
             ops.append("ring clear")
         elif dyn and not wrap64:
             n = rng.choice([0, 1, 2, 3, cur_cap // 2, cur_cap, cur_cap + 1, cur_cap * 2, rng.range(0, 70)])
+            if rng.chance(1, 10):
+                n = rng.choice(BIG_REQ)
+            n = min(n, 2 ** 21)
             ops.append("ring resize %d" % n)
             cur_cap = npot(n)
         else:
             ops.append("ring size")
+    # the property's hypothesis (and R1's): the counters do not cross 2^64.  A history that COULD push past it from its seeded base
+    # (large rings never fill, so pushes add up) is judged by correspondence only, like the deliberate wrap cases.
+    could_push = sum(1 if o.split()[1] in ("push", "pushm") else (0 if o.split()[2] == "-" else o.split()[2].count(",") + 1) if o.split()[1] == "pushb" else 0
+                     for o in ops[1:])
+    if base + could_push >= 2 ** 64 and not any(o.split()[1] == "resize" for o in ops):
+        wrap64 = True
+    elif base + could_push >= 2 ** 64:
+        ops = [o for o in ops if o.split()[1] != "seed"]      # (resize resets the counters: keep the history, drop the seed)
+        base = 0
     return {"cat": "ring-wrap64" if wrap64 else ("ring-dyn" if dyn else "ring-static"), "ops": ops, "cap": cap, "base": base}
+
+
+def gen_ringt_case(rng, idx):
+    """Both ring classes instantiated with the throwing element type Tracked{id, alive} (harness `ringt …`): random histories in which
+    about every fourth call is armed (`@K`: its K-th element assignment throws).  Lockstep against Model/RingThrow.lean."""
+    dyn = rng.chance(2, 3)
+    cap = npot(rng.choice([1, 2, 3, 4, 5, 8])) if dyn else 8
+    ops = ["ringt new d %d" % cap if dyn else "ringt new s 8"]
+    nxt = idx * 1000 + 1
+    armed = rng.chance(3, 4)
+    for _ in range(rng.range(4, 30)):
+        r = rng.below(100)
+        arm = " @%d" % rng.choice([1, 1, 2, 2, 3, 4, rng.range(1, cap + 1)]) if armed and rng.chance(1, 4) else ""
+        if r < 22:
+            ops.append("ringt %s %d%s" % (rng.choice(["push", "pushm"]), nxt, arm))
+            nxt += 1
+        elif r < 36:
+            ops.append("ringt pop" + arm)
+        elif r < 42:
+            ops.append("ringt peek" + arm)
+        elif r < 62:
+            k = rng.choice([0, 1, 2, cap - 1, cap, cap + 1, rng.range(0, cap + 1)])
+            xs = list(range(nxt, nxt + max(k, 0)))
+            nxt += len(xs)
+            ops.append("ringt pushb %s%s" % (",".join(map(str, xs)) if xs else "-", arm))
+        elif r < 82:
+            ops.append("ringt popb %d%s" % (max(0, rng.choice([0, 1, 2, cap - 1, cap, cap + 2, rng.range(0, cap + 1)])), arm))
+        elif r < 94 and dyn:
+            n = min(32, rng.choice([0, 1, 2, 3, cap // 2, cap, cap + 1, cap * 2]))     # (the harness shows windows of up to 64 elements)
+            ops.append("ringt resize %d%s" % (n, arm))
+            cap = npot(n)
+        else:
+            ops.append("ringt size")
+    return {"cat": "ring-throw", "ops": ops, "cap": cap, "base": 0}
+
+
+def ringt_monitor(c, impl, dist):
+    """Implementation-only judgement of a `ringt` history against a Python FIFO of LIVE items.
+    Until the first exception: bounded FIFO, every returned element live (never a moved-from husk).
+    A call that throws: tryPush / tryPop / peek / tryPushBatch must leave the content untouched (strong guarantee - it holds);
+    tryPopBatch / resize interrupted after k >= 1 assignments leave k moved-from husks counted as items (what the code does: recorded
+    as an OBSERVATION, theorem `RT_strong_guarantee_refuted`, not judged here); after that the reference follows the code (husks are `M`)."""
+    bad = []
+    q = None
+    cap = 0
+    for op, l in zip(c["ops"], impl):
+        if l.startswith("crash:"):
+            bad.append("R1: ring of a throwing element type crashes: %s -> %s" % (op, l))
+            break
+        t = [w for w in op.split() if not w.startswith("@")]
+        armed = op.split()[-1].startswith("@")
+        a, _, tail = l.partition(" | ")
+        m = re.search(r"w=(\S+)$", tail)
+        if t[1] == "new":
+            mm = re.match(r"ok cap=(\d+)$", l)
+            cap = int(mm.group(1)) if mm else 0
+            q = []
+            continue
+        win = [] if not m or m.group(1) == "-" else m.group(1).split(",")
+        if win == ["?"]:
+            win = list(q) if q is not None else win      # window too long to be shown: content not compared at this op
+        if a.startswith("throw"):
+            f = a.split()
+            k = int(f[1])
+            dist["throw:%s:after-%s" % (t[1], k if k < 2 else "2+")] += 1
+            if t[1] in ("push", "pushm", "pop", "peek", "pushb") or k == 0:
+                if win != q:
+                    bad.append("R1: %s threw and changed the content: window %s, before the call %s" % (op, win, q))
+                    break
+            else:
+                dist["throw:%s:husks-left-counted" % t[1]] += 1
+                if t[1] == "popb" and (len(f) < 3 or f[2].split(",") != q[:k]):
+                    bad.append("R1: %s threw after %d moves but the caller's array holds %s, not the oldest items %s" % (op, k, f[2:], q[:k]))
+                    break
+                if t[1] == "popb":
+                    q = ["M"] * k + q[k:]
+                else:
+                    n = int(t[2])
+                    nc = npot(n)
+                    start = max(0, len(q) - nc)
+                    q = q[:start] + ["M"] * k + q[start + k:]
+                if win != q:
+                    bad.append("R1: %s threw after %d assignments: window %s, expected %s" % (op, k, win, q))
+                    break
+            continue
+        if armed:
+            dist["armed-but-not-reached:%s" % t[1]] += 1
+        want = None
+        if t[1] in ("push", "pushm"):
+            if len(q) >= cap:
+                want = "0"
+            else:
+                q.append(t[2])
+                want = "1"
+        elif t[1] == "pop":
+            want = "1 %s" % q.pop(0) if q else "0"
+        elif t[1] == "peek":
+            want = "1 %s" % q[0] if q else "0"
+        elif t[1] == "pushb":
+            xs = [] if t[2] == "-" else t[2].split(",")
+            n = min(len(xs), cap - len(q))
+            q.extend(xs[:n])
+            want = str(n)
+        elif t[1] == "popb":
+            n = min(int(t[2]), len(q))
+            out = q[:n]
+            del q[:n]
+            want = "%d %s" % (n, ",".join(out) if out else "-")
+        elif t[1] == "resize":
+            nc = npot(int(t[2]))
+            dropped = max(0, len(q) - nc)
+            del q[:dropped]
+            cap = nc
+            want = "%d cap=%d" % (dropped, nc)
+        elif t[1] == "size":
+            want = str(len(q))
+        if want is not None and a != want:
+            bad.append("R1: ring<Tracked> is not the bounded FIFO: %s -> `%s`, reference answers `%s`" % (op, a, want))
+            break
+        if win != q:
+            bad.append("R1: ring<Tracked> content after %s is %s, reference holds %s" % (op, win, q))
+            break
+    return bad
 
 
 SPSC_OPS = ("new", "push", "pushm", "pop", "peek", "pushb", "popb")
@@ -224,6 +404,13 @@ def ring_monitor(c, impl):
             bad.append("R1: ring operation crashes/throws: %s -> %s" % (op, l))
             break
         t = op.split()
+        if t[1] == "npot":
+            n = int(t[2])
+            if n <= 2 ** 63 and l != str(npot(n)):
+                bad.append("R1: nextPowerOfTwo(%d) = %s, the least power of two >= %d is %d (a DynamicRingBuffer of that request gets a capacity "
+                           "that is not a power of two: `& mask` no longer addresses every slot, items are lost/duplicated)" % (n, l, n, npot(n)))
+                break
+            continue
         if t[1] == "new":
             m = re.match(r"ok cap=(\d+)$", l)
             want = int(t[3]) if t[2] == "s" else npot(int(t[3]))
@@ -270,6 +457,8 @@ class RefBq:
         if k == "close":
             self.closed = True
             return "ok"
+        if k == "destroy":
+            return "ok"
         if k == "closed":
             return "1" if self.closed else "0"
         if k == "size":
@@ -281,6 +470,14 @@ class RefBq:
         if k == "cap":
             return str(self.cap)
         return None
+
+
+def timeout_token(rng):
+    """time-out of a one-caller timed op: small values, and the values whose `now() + timeout` inside wait_for leaves the 64-bit
+    nanosecond range unless the class saturates it (fix FC10a): milliseconds::max()/min(), 2^63 ns + a little, negative"""
+    if rng.chance(1, 4):
+        return rng.choice(["max", "min", "-1", "-5", "9223372036855", "9223372036854775", "3153600000000", "3153600000001"])
+    return str(rng.choice([0, 1, 5]))
 
 
 def gen_bq_case(rng, idx):
@@ -301,17 +498,23 @@ def gen_bq_case(rng, idx):
             k = rng.choice(["q", "qm", "tq", "tqm", "tqf", "tqfm"])
             if ref.blocks(k):
                 k = rng.choice(["tq", "tqm", "tqf", "tqfm"]) if not rng.chance(1, 60) else k
-            op = "bq %s %d" % (k, nxt) + (" %d" % rng.choice([0, 1, 5]) if k.startswith("tqf") else "")
+            op = "bq %s %d" % (k, nxt) + (" %s" % timeout_token(rng) if k.startswith("tqf") else "")
             nxt += 1
         elif r < 75:
             k = rng.choice(["d", "df", "td"])
             if ref.blocks(k):
                 k = rng.choice(["df", "td"]) if not rng.chance(1, 60) else k
-            op = "bq %s" % k + (" %d" % rng.choice([0, 1, 5]) if k == "df" else "")
+            op = "bq %s" % k + (" %s" % timeout_token(rng) if k == "df" else "")
         elif r < 95:
             op = "bq " + rng.choice(["size", "empty", "full", "cap", "closed"])
-        else:
+        elif r < 98:
             op = "bq close"
+        else:
+            # the destructor with nobody inside (open or closed, empty or not), then a fresh queue
+            ops += ["bq destroy", "bq size", "bq new %d" % cap]
+            ref = RefBq(cap)
+            close_at = 10 ** 9
+            continue
         ops.append(op)
         if ref.blocks(op.split()[1]):
             break       # the single caller would block for ever: both sides answer `blocks` and the case ends
@@ -324,7 +527,13 @@ def bq_seq_monitor(c, impl):
     ref = None
     for op, l in zip(c["ops"], impl):
         if l.startswith("crash:"):
-            bad.append("Q: blocking-queue operation crashes: %s -> %s" % (op, l))
+            t = op.split()
+            if t[1] in ("tqf", "tqfm", "df") and not re.match(r"\d{1,3}$", t[-1]):
+                bad.append("Q: timed %s with time-out `%s` ms aborts under UBSan: wait_for's `now() + timeout` overflows the signed 64-bit nanosecond "
+                           "count (undefined behaviour; without the sanitizer the deadline lies in the past and the call reports a time-out at once "
+                           "instead of waiting): %s -> %s" % ("put" if t[1] != "df" else "take", t[-1], op, l[:160]))
+            else:
+                bad.append("Q: blocking-queue operation crashes: %s -> %s" % (op, l))
             break
         t = op.split()
         if t[1] == "new":
@@ -333,6 +542,16 @@ def bq_seq_monitor(c, impl):
                     bad.append("Q: BlockingQueue(0) must throw invalid_argument, got %s" % l)
                 return bad
             ref = RefBq(int(t[2]))
+            continue
+        if ref is None:
+            if l != "no-queue":
+                bad.append("Q: %s after the destructor answered %s" % (op, l))
+            continue
+        if t[1] == "destroy":
+            if l != "ok":
+                bad.append("Q: ~BlockingQueue() with nobody inside did not return: %s" % l)
+                break
+            ref = None
             continue
         if ref.blocks(t[1]):
             if l != "blocks":
@@ -358,10 +577,37 @@ def gen_sched_case(rng, idx):
     """2-4 worker threads. Termination on a correct queue is guaranteed by construction: whenever a call that can block for ever
     (`q`, `d`) occurs, one thread (the closer) performs only timed/non-blocking calls and then `close()`."""
     nw = rng.choice([2, 2, 3, 3, 4])
-    cap = rng.choice([1, 1, 2, 2, 3])
-    style = rng.below(8)
+    cap = rng.choice([1, 1, 2, 2, 3, 3, 4])
+    style = rng.below(9)
     progs = []
     blocking = False
+    if style == 8:
+        # no closer, blocked producers on a pre-filled queue, takers that never wait for ever (tryDequeue / timed dequeue) or - `d` - that
+        # come with a guaranteed supply: the filler's own `q`s.  Producers are timed (`f`, 10 ms: values not divisible by 3), so the program
+        # terminates on a correct queue under every schedule and a producer that is not woken although space became available shows as a
+        # forced time-out with a true predicate (sched_monitor `stuck`).
+        cap = rng.choice([1, 2, 2, 3])
+        fill = ["t0"] * cap
+        nprod = rng.range(1, 3)
+        prods = [["f0"] * rng.range(1, 2) for _ in range(nprod)]
+        ntk = rng.range(1, 2)
+        takes = [[rng.choice(["y", "y", "e"]) for _ in range(rng.range(1, 3))] for _ in range(ntk)]
+        if rng.chance(1, 3):
+            fill = fill + [rng.choice(["s", "y", "e"])]
+        progs = [fill] + prods + takes
+        if rng.chance(1, 3):
+            tail = progs[1:]
+            rng.shuffle(tail)
+            progs = [fill] + tail
+        for t, p in enumerate(progs, 1):
+            for i, call in enumerate(p):
+                if call[0] in "tf":
+                    v = t * 100 + 3 * i          # unique per call; `f` values not divisible by 3 (harness: 10 ms instead of 0 ms)
+                    if call[0] == "f" and v % 3 == 0:
+                        v += 1
+                    p[i] = "%s%d" % (call[0], v)
+        return {"cat": "bq-sched", "cap": cap, "progs": progs, "seed": rng.next() % (2 ** 32), "style": 8,
+                "timeoutOneIn": rng.choice([0, 0, 0, 30]), "spuriousOneIn": rng.choice([0, 0, 20])}
     if style >= 6:
         # balanced, no close: terminates on a correct queue whatever the schedule, and ONLY if no wake-up between put and take is lost
         # (close() cannot come to the rescue).  Consumers are blocking `d` and - every other case - also timed `e` takes: with
@@ -430,6 +676,8 @@ def gen_sched_case(rng, idx):
         closer = pre + ["c"] + post
         if len(progs) >= 4:
             progs = progs[:3]
+        if rng.chance(1, 5) and progs:
+            progs[rng.below(len(progs))].append("c")      # a SECOND close(), possibly concurrent with the closer's (idempotent: first one wins)
         progs.insert(rng.below(len(progs) + 1), closer)
     # unique item values: thread*100 + index (so every taken item identifies its producer and its position)
     for t, p in enumerate(progs, 1):
@@ -475,6 +723,42 @@ def model_schedule(events):
         else:
             out.append("r" + t)
     return out
+
+
+def sched_reach(res, dist):
+    """branch counters of one DetSched trace (measured on the implementation's own events): waits per condition variable and timed flag,
+    how many sleepers a notify_one chose among / a notify_all woke, time-outs, spurious wake-ups, late reacquisitions"""
+    asleep = {}
+    for ev in res["events"]:
+        f = ev.split(".")
+        if len(f) < 3:
+            continue
+        t, k, d = f[0], f[1], f[2]
+        if k == "W" and len(d) >= 2:
+            dist["wait:%s:%s" % (d[0], "timed" if d[1] == "1" else "untimed")] += 1
+            asleep[t] = d[0]
+            n = sum(1 for v in asleep.values() if v == d[0])
+            dist["sleepers-on-%s:%s" % (d[0], n if n < 3 else "3+")] += 1
+        elif k == "N" and d:
+            cand = [x for x, v in asleep.items() if v == d[0]]
+            if d[1:] in ("-", ""):
+                dist["notify_one:%s:nobody" % d[0]] += 1
+            else:
+                dist["notify_one:%s:woke-1-of-%s" % (d[0], len(cand) if len(cand) < 3 else "3+")] += 1
+                asleep.pop(d[1:], None)
+        elif k == "B" and d:
+            n = len([x for x, v in asleep.items() if v == d[0]])
+            dist["notify_all:%s:woke-%s" % (d[0], n if n < 2 else "2+")] += 1
+            for x in [x for x, v in asleep.items() if v == d[0]]:
+                asleep.pop(x)
+        elif k == "O":
+            dist["wake:timeout"] += 1
+            asleep.pop(t, None)
+        elif k == "P":
+            dist["wake:spurious"] += 1
+            asleep.pop(t, None)
+        elif k == "R":
+            dist["reacquire:late=%s" % d] += 1
 
 
 def sched_monitor(c, res):
@@ -619,7 +903,7 @@ def replay(ctx):
             (c, impl, model), = ctx.lockstep("queues", hb, [c])
             for o, a, b in zip(ops, impl, model):
                 print("op    %s\n impl  %s\n model %s" % (o[:200], a[:200], b[:200]))
-            fails = ring_monitor(c, impl) if cat.startswith("ring") else bq_seq_monitor(c, impl)
+            fails = ringt_monitor(c, impl, collections.Counter()) if ops[0].startswith("ringt") else ring_monitor(c, impl) if cat.startswith("ring") else bq_seq_monitor(c, impl)
             for f in fails:
                 print("PROPERTY FAILS:", f[:400])
             still = still or bool(fails) or impl != model
@@ -652,6 +936,12 @@ def run(ctx: Ctx):
         r1 = rng.fork("ring")
         for i in range(2500 * scale):
             seq_cases.append(gen_ring_case(r1, i, wrap64=(i % 25 == 24)))
+        r1c = rng.fork("npot")
+        for i in range(150 * scale):
+            seq_cases.append(gen_npot_case(r1c, i))
+        r1d = rng.fork("ringt")
+        for i in range(500 * scale):
+            seq_cases.append(gen_ringt_case(r1d, i))
         r1b = rng.fork("spsc")
         for i in range(600 * scale):
             seq_cases.append(gen_spsc_case(r1b, i))
@@ -674,7 +964,8 @@ def run(ctx: Ctx):
         "pthread mutex/condvar semantics as modelled in Model/Monitor.lean (atomic release-and-sleep, notify wakes only current sleepers, spurious and timed wake-ups)",
         "ring counters do not overflow 2^64 (needs 2^64 pushes; tryPop's raw `tail >= head` test is not overflow-safe - recorded as an observation; the UInt64 model reproduces the code's behaviour there and is lockstep-checked in category ring-wrap64)",
         "destruction: ~BlockingQueue() is close(); C++ lifetime rules require that no thread is still inside a member function",
-        "element type: every harness instantiates T = uint64_t (trivially copyable; copy/move overloads are exercised but indistinguishable); throwing or non-trivial T (exception safety of push_back/assignment) is outside the check",
+        "element type: uint64_t everywhere except the `ringt` cases (both ring classes with Tracked{id, alive}: move leaves a husk, the K-th assignment of a call can throw before modifying anything); an operator= that throws AFTER partially modifying its target, and a throwing element in the BlockingQueue (std::deque::push_back strong guarantee), are outside the check",
+        "`now() + timeout` inside libstdc++'s wait_for is in range because the class clamps the caller's timeout to [0, 100 years] (fix FC10a, shape pinned by the translator); under DetSched a timed wait times out in virtual time, so the numeric deadline itself is not compared with the model",
         "blocking-queue race-freedom = every access to _queue and every write of _closed under _mutex (extracted skeleton, decide) + `const _maxSize` + no unknown member function (translator) + TSan MPMC soak of the real class as the search; it is not a theorem about the C++ memory model",
     ]
     return ctx.finish(level="proof", rule="a case = one self-contained op list on a fresh ring / blocking queue (lockstep with the model), or one multi-threaded program run under one "
@@ -699,6 +990,12 @@ EXPLORE = [
     # MIXED waiters (timed + untimed) on one condition variable, no closer, maxSize >= 2: a wake-up that lands on the timed waiter must
     # still reach the other one (seeded change C10-c: edge-triggered notify, cascade only in the untimed dequeue)
     (2, "-/e/d/q1,q2", 0, 1), (2, "-/d/e/q1,q2", 0, 1), (2, "-/e/d/q1/q2", 0, 1), (3, "-/e/d/d/q1,q2,q3", 0, 0),
+    # blocked PRODUCERS on a pre-filled queue released by NON-BLOCKING / timed takers only (tryDequeue `y`, timed dequeue `e`): a take that
+    # notifies only "when the queue was full" strands the second producer (review T2: conditional notify in tryDequeue).  Timed producers `f`
+    # (10 ms, values not divisible by 3) make the programs terminate on a correct queue under EVERY schedule, also when the takers run before
+    # the fill; the stranded producer shows as a forced time-out with a true predicate.  The `q` variants are explored from the fill on.
+    (2, "-/t1,t2/f4/f5/y,y", 0, 1), (2, "-/t1,t2/f4/f5/e,e", 0, 1), (2, "-/t1,t2/f4/f5/y/y", 0, 1), (3, "-/t1,t2,t4/f5/f7/y,y,y", 0, 0),
+    (2, "-/t1,t2,s,y,y/q4/q5", 1, 2), (2, "-/t1,t2,s,e,e/q4/q5", 1, 2),
 ]
 
 
@@ -777,10 +1074,11 @@ def run_tsan(ctx, ms, dist):
                           {"ops": [cmd], "observed": out.splitlines()}, found_input=True)
     ctx.extra["tsan_items_transferred"] = items
     ctx.extra["tsan_ms_per_configuration"] = ms
-    n = err.count("WARNING: ThreadSanitizer")
+    n = err.count("WARNING: ThreadSanitizer: data race")
     ctx.extra["tsan_reports"] = n
+    ctx.extra["tsan_other_warnings"] = err.count("WARNING: ThreadSanitizer") - n   # (thread leak, signal-unsafe call …: not a verdict on the property)
     if n:
-        first = err[err.find("WARNING: ThreadSanitizer"):][:2500]
+        first = err[err.find("WARNING: ThreadSanitizer: data race"):][:2500]
         where = [(a, "%s.hpp:%s" % (f, n)) for a, f, n in re.findall(r"#0 (iora::core::[^\n]*?)\s/\S*(ring_buffer|blocking_queue)\.hpp:(\d+)", first)]
         ctx.violation("property", "R3/Q: ThreadSanitizer reports a data race inside the stated contract (SPSC ring / MPMC blocking queue): %s"
                       % "; ".join("%s %s" % w for w in where[:2]),
@@ -788,6 +1086,45 @@ def run_tsan(ctx, ms, dist):
     elif rc != 0:
         ctx.violation("property", "R2/Q: the concurrent soak of the real classes crashed after producing output, rc=%d: %s" % (rc, err[-300:]),
                       {"ops": [cmd], "observed": out.splitlines()}, found_input=True)
+
+
+def seq_reach(c, impl, dist):
+    """branch counters of a sequential case, from the implementation's answers"""
+    cap = None
+    for op, l in zip(c["ops"], impl):
+        t = op.split()
+        a = l.split(" | ")[0]
+        if t[0] in ("ring", "spsc"):
+            if t[1] == "new":
+                m = re.match(r"ok cap=(\d+)$", l)
+                cap = int(m.group(1)) if m else None
+                if cap is not None:
+                    dist["ring:cap:%s" % ("<=64" if cap <= 64 else "<=512" if cap <= 512 else "<=65536" if cap <= 65536 else ">65536")] += 1
+            elif t[1] == "npot":
+                n = int(t[2])
+                dist["npot:arg:%s" % ("<=2^8" if n <= 256 else "<=2^16" if n <= 65536 else "<=2^32" if n <= 2 ** 32 else "<=2^63" if n <= 2 ** 63 else ">2^63(wraps to 0)")] += 1
+            elif t[1] == "resize":
+                m = re.match(r"(\d+) cap=(\d+)", a)
+                if m:
+                    nc = int(m.group(2))
+                    dist["resize:%s%s" % ("grow" if cap is not None and nc > cap else "shrink" if cap is not None and nc < cap else "same",
+                                          ":drop" if int(m.group(1)) else "")] += 1
+                    dist["resize:newcap:%s" % ("<=64" if nc <= 64 else "<=512" if nc <= 512 else "<=65536" if nc <= 65536 else ">65536")] += 1
+                    cap = nc
+            elif t[1] in ("push", "pushm"):
+                dist["ring:push:%s" % ("ok" if a == "1" else "full")] += 1
+            elif t[1] == "pop":
+                dist["ring:pop:%s" % ("item" if a.startswith("1") else "empty")] += 1
+            elif t[1] == "pushb":
+                k = 0 if t[2] == "-" else t[2].count(",") + 1
+                dist["ring:pushb:%s" % ("all" if a == str(k) else "none" if a == "0" else "partial")] += 1
+            elif t[1] == "popb":
+                dist["ring:popb:%s" % ("all" if a.split()[0] == t[2] else "none" if a.split()[0] == "0" else "partial")] += 1
+        elif t[0] == "bq":
+            if t[1] in ("tqf", "tqfm", "df"):
+                to = t[-1]
+                kind = "small" if re.match(r"\d{1,3}$", to) else "negative" if to.startswith("-") or to == "min" else "huge(>=100y)"
+                dist["bq:timed:%s:timeout=%s:%s" % ("put" if t[1] != "df" else "take", kind, "ok" if a.startswith("1") else "refused" if a == "0" else a.split(":")[0])] += 1
 
 
 def run_sequential(ctx, hb, cases, dist):
@@ -799,9 +1136,10 @@ def run_sequential(ctx, hb, cases, dist):
         ctx.count_case("\n".join(c["ops"]), nontrivial=nontrivial)
         for op in c["ops"]:
             dist["op:" + " ".join(op.split()[:2])] += 1
+        seq_reach(c, impl, dist)
         if len(ctx.cov["samples"]) < 4 and ctx.rng.chance(1, 400):
             ctx.sample({"cat": c["cat"], "ops": c["ops"][:12], "impl": impl[:12]})
-        fails = ring_monitor(c, impl) if c["cat"].startswith("ring") else bq_seq_monitor(c, impl) if c["cat"] == "bq-seq" else []
+        fails = ringt_monitor(c, impl, dist) if c["cat"] == "ring-throw" else ring_monitor(c, impl) if c["cat"].startswith("ring") else bq_seq_monitor(c, impl) if c["cat"] == "bq-seq" else []
         mism = [(i, a, b) for i, (a, b) in enumerate(zip(impl, model)) if a != b]
         if fails:
             report_seq(ctx, hb, c, impl, model, fails)
@@ -821,7 +1159,7 @@ def report_seq(ctx, hb, c, impl, model, fails):
     if not ctx.violation_budget("property", fails[0]):
         ctx.violation("property", fails[0])
         return
-    mon = ring_monitor if c["cat"].startswith("ring") else bq_seq_monitor
+    mon = (lambda cc, out: ringt_monitor(cc, out, collections.Counter())) if c["cat"] == "ring-throw" else ring_monitor if c["cat"].startswith("ring") else bq_seq_monitor
     head = ops[:2] if len(ops) > 1 and ops[1].split()[1] == "seed" else ops[:1]
 
     def still(sub):
@@ -885,6 +1223,17 @@ def run_sched(ctx, hb, cases, dist):
             steps += len(res["events"])
             for e in res["events"]:
                 dist["ev:" + e.split(".")[1]] += 1
+            sched_reach(res, dist)
+            if "style" in c:
+                dist["sched-style:%s" % c["style"]] += 1
+            for prog, rets in zip(c["progs"], res["rets"][1:]):
+                rl = [] if rets.rstrip("*") in ("-", "") else rets.rstrip("*").split(",")
+                for call, r in zip(prog, rl):
+                    dist["ret:%s=%s" % (call[0], r[0])] += 1
+            ncl = sum(1 for p in c["progs"] for call in p if call == "c")
+            if ncl >= 2:
+                dist["sched:two-or-more-close-calls"] += 1
+            dist["sched:maxSize=%d" % c["cap"]] += 1
             switches = sum(1 for a, b in zip(res["events"], res["events"][1:]) if a.split(".")[0] != b.split(".")[0])
             ctx.count_case(sched_line(c) + "|" + ",".join(map(str, res["choices"])), nontrivial=switches >= 2)
         else:
